@@ -504,18 +504,31 @@ theorem getCapture_eq (caps : List (Option (Nat × Nat))) {n : Nat} (hn : 1 ≤ 
   have : n ≠ 0 := by omega
   simp [ES.getCapture, this, List.getD_eq_getElem?_getD]
 
-theorem sim_backref {inp : Input} {cs : List Nat} (ht : Utf8Text inp cs) (total : Nat) (rer : ES.RER)
-    (hic : rer.ignoreCase = false) (n : Nat) (hn1 : 1 ≤ n) (hn2 : n ≤ total) (back : Bool) (lo hi : Nat) :
-    Sim inp cs total (ES.backreferenceMatcher cs.toArray rer [n] (dirOf back)) (.backRef n false) (!back) lo hi := by
+/-- Back-references, given what `backRefStep` computes in terms of `Canonicalize` (`canon`). -/
+theorem sim_backref_gen {inp : Input} {cs : List Nat} (total : Nat) (rer : ES.RER) (icase : Bool)
+    (canon : Nat → Nat) (hcanon : ∀ ch, ES.canonicalize rer ch = canon ch)
+    (hF : ∀ {rs re e : Nat}, rs ≤ re → re ≤ cs.length → e ≤ cs.length →
+      backRefStep inp icase true (Utf8.off cs rs) (Utf8.off cs re) (Utf8.off cs e) =
+        if e + (re - rs) ≤ cs.length ∧
+            ES.allBelow (fun i => canon (cs.toArray.getD (rs + i) 0) == canon (cs.toArray.getD (e + i) 0)) (re - rs) = true
+        then some (Utf8.off cs (e + (re - rs))) else none)
+    (hB : ∀ {rs re e : Nat}, rs ≤ re → re ≤ cs.length → e ≤ cs.length →
+      backRefStep inp icase false (Utf8.off cs rs) (Utf8.off cs re) (Utf8.off cs e) =
+        if (re - rs) ≤ e ∧
+            ES.allBelow (fun i => canon (cs.toArray.getD (rs + i) 0) ==
+              canon (cs.toArray.getD (e - (re - rs) + i) 0)) (re - rs) = true
+        then some (Utf8.off cs (e - (re - rs))) else none)
+    (n : Nat) (hn1 : 1 ≤ n) (hn2 : n ≤ total) (back : Bool) (lo hi : Nat) :
+    Sim inp cs total (ES.backreferenceMatcher cs.toArray rer [n] (dirOf back)) (.backRef n icase) (!back) lo hi := by
   intro fuel x st c k hr hl _ hc
   have hn0 : (n == 0) = false := by simp; omega
   have hlt : n - 1 < st.caps.length := by omega
   have hcap := hr.caps (n - 1)
   rw [List.getElem?_eq_getElem hlt] at hcap
   simp only [Option.getD_some] at hcap
-  have hsem : sem inp (.backRef n false) (!back) st =
+  have hsem : sem inp (.backRef n icase) (!back) st =
       match st.caps[n - 1] with
-      | (some rs, some re) => optSt st (backRefStep inp false (!back) rs re st.pos)
+      | (some rs, some re) => optSt st (backRefStep inp icase (!back) rs re st.pos)
       | _ => [st] := by
     simp only [sem, hn0, Bool.false_eq_true, if_false, List.getElem?_eq_getElem hlt]
     split <;> simp_all
@@ -524,7 +537,7 @@ theorem sim_backref {inp : Input} {cs : List Nat} (ht : Utf8Text inp cs) (total 
   | none =>
     rw [he] at hcap
     simp only
-    have hsem' : sem inp (.backRef n false) (!back) st = [st] := by
+    have hsem' : sem inp (.backRef n icase) (!back) st = [st] := by
       rw [hsem]
       rcases hcap with h | h
       · split
@@ -541,33 +554,33 @@ theorem sim_backref {inp : Input} {cs : List Nat} (ht : Utf8Text inp cs) (total 
     obtain ⟨rs, re⟩ := p
     rw [he] at hcap
     obtain ⟨h1, h2, hceq⟩ := hcap
-    have hsem' : sem inp (.backRef n false) (!back) st =
-        optSt st (backRefStep inp false (!back) (Utf8.off cs rs) (Utf8.off cs re) st.pos) := by
+    have hsem' : sem inp (.backRef n icase) (!back) st =
+        optSt st (backRefStep inp icase (!back) (Utf8.off cs rs) (Utf8.off cs re) st.pos) := by
       rw [hsem, hceq]
     rw [hsem', findSome?_optSt]
     have hcont : ∀ e, e ≤ cs.length →
-        backRefStep inp false (!back) (Utf8.off cs rs) (Utf8.off cs re) st.pos = some (Utf8.off cs e) →
+        backRefStep inp icase (!back) (Utf8.off cs rs) (Utf8.off cs re) st.pos = some (Utf8.off cs e) →
         ResRel cs (c { x with endIndex := e }) (k { st with pos := Utf8.off cs e }) := by
       intro e hel hstep
       exact hc _ _ (by rw [hsem', hstep]; simp [optSt]) (hr.withIdx hel)
-    simp only [canonicalize_id hic, List.size_toArray]
+    simp only [hcanon, List.size_toArray]
     have hidx := hr.idx
     cases back with
     | false =>
       simp only [dirOf_false, Bool.not_false, reduceCtorEq, false_and, true_and, false_or, if_true] at hcont ⊢
-      have hstep := backRefStep_fwd ht h1 h2 hidx
+      have hstep := hF h1 h2 hidx
       rw [← hr.pos] at hstep
       have hmin : min x.endIndex (x.endIndex + (re - rs)) = x.endIndex := by omega
       rw [hmin]
       by_cases hov : x.endIndex + (re - rs) > cs.length
       · have : ¬ (x.endIndex + (re - rs) ≤ cs.length ∧
-            ES.allBelow (fun i => cs.toArray.getD (rs + i) 0 == cs.toArray.getD (x.endIndex + i) 0) (re - rs) = true) :=
+            ES.allBelow (fun i => canon (cs.toArray.getD (rs + i) 0) == canon (cs.toArray.getD (x.endIndex + i) 0)) (re - rs) = true) :=
           fun h => by omega
         rw [if_neg this] at hstep
         simp only [hov, if_true, hstep]; rfl
       · simp only [hov, if_false]
-        by_cases hall : ES.allBelow (fun i => cs.toArray.getD (rs + i) 0 == cs.toArray.getD (x.endIndex + i) 0)
-            (re - rs) = true
+        by_cases hall : ES.allBelow (fun i => canon (cs.toArray.getD (rs + i) 0) ==
+            canon (cs.toArray.getD (x.endIndex + i) 0)) (re - rs) = true
         · rw [if_pos ⟨by omega, hall⟩] at hstep
           simp only [hall, if_true, hstep]
           exact hcont _ (by omega) hstep
@@ -575,25 +588,31 @@ theorem sim_backref {inp : Input} {cs : List Nat} (ht : Utf8Text inp cs) (total 
           simp only [hall, hstep]; rfl
     | true =>
       simp only [dirOf_true, Bool.not_true, reduceCtorEq, false_and, true_and, or_false, if_false] at hcont ⊢
-      have hstep := backRefStep_bwd ht h1 h2 hidx
+      have hstep := hB h1 h2 hidx
       rw [← hr.pos] at hstep
       have hmin : min x.endIndex (x.endIndex - (re - rs)) = x.endIndex - (re - rs) := by omega
       rw [hmin]
       by_cases hov : x.endIndex < re - rs
       · have : ¬ ((re - rs) ≤ x.endIndex ∧
-            ES.allBelow (fun i => cs.toArray.getD (rs + i) 0 ==
-              cs.toArray.getD (x.endIndex - (re - rs) + i) 0) (re - rs) = true) :=
+            ES.allBelow (fun i => canon (cs.toArray.getD (rs + i) 0) ==
+              canon (cs.toArray.getD (x.endIndex - (re - rs) + i) 0)) (re - rs) = true) :=
           fun h => by omega
         rw [if_neg this] at hstep
         simp only [hov, if_true, hstep]; rfl
       · simp only [hov, if_false]
-        by_cases hall : ES.allBelow (fun i => cs.toArray.getD (rs + i) 0 ==
-            cs.toArray.getD (x.endIndex - (re - rs) + i) 0) (re - rs) = true
+        by_cases hall : ES.allBelow (fun i => canon (cs.toArray.getD (rs + i) 0) ==
+            canon (cs.toArray.getD (x.endIndex - (re - rs) + i) 0)) (re - rs) = true
         · rw [if_pos ⟨by omega, hall⟩] at hstep
           simp only [hall, if_true, hstep]
           exact hcont _ (by omega) hstep
         · rw [if_neg (fun h => hall h.2)] at hstep
           simp only [hall, hstep]; rfl
+
+theorem sim_backref {inp : Input} {cs : List Nat} (ht : Utf8Text inp cs) (total : Nat) (rer : ES.RER)
+    (hic : rer.ignoreCase = false) (n : Nat) (hn1 : 1 ≤ n) (hn2 : n ≤ total) (back : Bool) (lo hi : Nat) :
+    Sim inp cs total (ES.backreferenceMatcher cs.toArray rer [n] (dirOf back)) (.backRef n false) (!back) lo hi :=
+  sim_backref_gen total rer false id (fun ch => canonicalize_id hic ch)
+    (fun h1 h2 he => backRefStep_fwd ht h1 h2 he) (fun h1 h2 he => backRefStep_bwd ht h1 h2 he) n hn1 hn2 back lo hi
 
 /-! ## Without `i`: `Canonicalize` is the identity -/
 
